@@ -26,7 +26,60 @@ from ..report import Check
 MOD = "xknx.io.data_connection"
 
 
+def heartbeat_callbacks(chk: Check, repo: Repo) -> None:
+    """The automaton counts what the `send_connectionstate` callable reports, so every callable wired into a
+    ConnectionHeartbeat has to report a failed request as a failure: in each of them, whatever the error status, a
+    RequestResponseError of the ConnectionState request ends in `return False, <status>`; only the normal completion
+    of the request returns True; `None` (stop quietly) only without a communication channel."""
+    from ..astx import call_sites, walk_local
+    sites = [(f, c) for f, c in call_sites(repo, "ConnectionHeartbeat")]
+    cbs = []
+    for f, c in sites:
+        for k in c.keywords:
+            if k.arg == "send_connectionstate" and isinstance(k.value, ast.Attribute) and isinstance(k.value.value, ast.Name) and k.value.value.id == "self" and f.cls is not None:
+                for cls_ in [f.cls] + repo.subclasses(f.cls, strict=True):
+                    m = repo.lookup_method(cls_, k.value.attr)
+                    if m is not None and m not in cbs:
+                        cbs.append(m)
+    chk.count("heartbeat callbacks wired into ConnectionHeartbeat", len(cbs))
+    chk.floor("heartbeat callbacks wired into ConnectionHeartbeat", len(cbs), 2)
+    for m in cbs:
+        chk.unit(m)
+        cfg = CFG(m.node)
+        mf = cfg.must_facts()
+        problems = []
+        reqs = [n for n in walk_local(m.node) if isinstance(n, ast.Await) and isinstance(n.value, ast.Call) and call_name(n.value).endswith(".request")]
+        if len(reqs) != 1:
+            problems.append(f"{len(reqs)} awaited requests")
+        tries = [t for t in walk_local(m.node) if isinstance(t, ast.Try) and any(x is r for r in reqs for b in t.body for x in ast.walk(b))]
+        handler_returns = []
+        for t in tries:
+            for h in t.handlers:
+                for x in [y for b in h.body for y in ast.walk(b)]:
+                    if isinstance(x, ast.Return):
+                        handler_returns.append(x)
+                        v = x.value
+                        if not (isinstance(v, ast.Tuple) and len(v.elts) == 2 and isinstance(v.elts[0], ast.Constant) and v.elts[0].value is False):
+                            problems.append(f"line {x.lineno}: a failed request ends in `return {ast.unparse(v) if v is not None else ''}` instead of (False, status)")
+                if not any(isinstance(y, (ast.Return, ast.Raise)) for b in h.body for y in ast.walk(b)):
+                    problems.append(f"handler at line {h.lineno} falls through to the success return")
+        for n in cfg.nodes:
+            if isinstance(n.ast, ast.Return) and not any(n.ast is r for r in handler_returns):
+                v = n.ast.value
+                if isinstance(v, ast.Tuple) and v.elts and isinstance(v.elts[0], ast.Constant) and v.elts[0].value is True:
+                    continue  # success: reached by normal completion of the request (the handlers above all return / raise)
+                if v is None or (isinstance(v, ast.Constant) and v.value is None):
+                    if not any(val and a.endswith("communication_channel is None") for a, val in mf[n.id]):
+                        problems.append(f"line {n.ast.lineno}: `return None` (ends the heartbeat) not guarded by a missing communication channel")
+                    continue
+                if isinstance(v, ast.Tuple) and v.elts and isinstance(v.elts[0], ast.Constant) and v.elts[0].value is False:
+                    continue
+                problems.append(f"line {n.ast.lineno}: unclassified return `{ast.unparse(n.ast)}`")
+        chk.ob("heartbeat-callback-reports-every-failed-request", m.site(), not problems, f"{m.qualname}: " + ("request failure -> (False, status); normal completion -> (True, None); no channel -> None" if not problems else "; ".join(problems)), key=f"callback|{m.qualname}")
+
+
 def run(chk: Check, repo: Repo) -> None:
+    heartbeat_callbacks(chk, repo)
     fi = repo.func(MOD, "ConnectionHeartbeat._run")
     cls = repo.cls(MOD, "ConnectionHeartbeat")
     init = repo.func(MOD, "ConnectionHeartbeat.__init__")
